@@ -1302,3 +1302,7 @@ package gomatrixserverlib
 //@   calls VerifyJSONs every-mapping-signer: forall s string :: s in mapping.Signatures ==> (exists i int :: 0 <= i && i < len(requests) && string(requests[i].ServerName) == s)
 //@   loop 1: invariant forall s string :: seen(1)[s] ==> (exists i int :: 0 <= i && i < len(toVerify) && string(toVerify[i].ServerName) == s)
 //@   loop 2: invariant 0 <= idx(2) && idx(2) <= len(results) && (forall i int :: 0 <= i && i < idx(2) ==> results[i].Error == nil)
+
+//@ func SignJSON
+//@   trusted
+//@   assigns nothing
